@@ -2,6 +2,8 @@ package checks
 
 import (
 	"fmt"
+	"io"
+	"os"
 
 	"verifharness/lib"
 	"verifharness/ref"
@@ -14,7 +16,7 @@ func registerC11() {
 		ID:    "C11",
 		Level: "fault_enumeration",
 		Rule: "streams: PRNG model files of all 17 file types (<= ~700 bytes, both header sizes, unknown items, developer fields, compressed timestamps), short device " +
-			"files, and chains of 2-3 of them; for every stream EVERY byte offset c in [0, len] x {clean cut, injected non-EOF read error from c on} x six entry points x " +
+			"files, and chains of 2-3 of them; for every stream EVERY byte offset c in [0, len] x {clean cut, injected non-EOF read error from c on: a private sentinel, io.ErrUnexpectedEOF, io.ErrClosedPipe, os.ErrClosed} x six entry points x " +
 			"{1-byte reads, greedy reads} is executed: c before the entry point's needed prefix => a non-nil error and (Decode, DecodeChained) a partial File holding exactly " +
 			"the messages of the records complete before c; c at or after it => the intact result; clean EOF exactly on a file boundary of a chain => the files before it and " +
 			"nil; a fault on a boundary => error. A case is one (stream, offset, kind, entry point, chunker) execution; non-trivial: c lies strictly inside the stream; distinct by construction",
@@ -25,6 +27,20 @@ func registerC11() {
 		},
 		Exhaustive: func(string) bool { return false },
 	})
+}
+
+// faultKinds: how the reader ends at the chosen offset. Besides a private sentinel the injected
+// faults use error values a real reader stack returns (a truncated gzip or TLS stream yields
+// io.ErrUnexpectedEOF, a closed pipe io.ErrClosedPipe): none of them is a clean end of input.
+var faultKinds = []struct {
+	name string
+	err  error
+}{
+	{"clean cut", nil},
+	{"read fault (sentinel error)", lib.ErrInjected},
+	{"read fault (io.ErrUnexpectedEOF)", io.ErrUnexpectedEOF},
+	{"read fault (io.ErrClosedPipe)", io.ErrClosedPipe},
+	{"read fault (wrapped io.EOF is still an error: fs.ErrClosed)", os.ErrClosed},
 }
 
 type c11File struct {
@@ -99,29 +115,29 @@ func c11Stream(c *lib.Ctx, idx uint64) {
 	}
 	chunkers := []lib.Chunker{{Kind: "one"}, {Kind: "greedy"}}
 	for cut := 0; cut <= len(stream); cut++ {
-		for fault := 0; fault < 2; fault++ {
+		for fault := 0; fault < len(faultKinds); fault++ {
 			if cut == len(stream) && fault == 0 {
 				continue // the intact stream
 			}
 			for _, ep := range lib.EntryPoints {
 				for _, ch := range chunkers {
-					r := &lib.Reader{Data: stream, Limit: cut, Fault: fault == 1, Ch: ch}
+					r := &lib.Reader{Data: stream, Limit: cut, Fault: fault >= 1, FaultErr: faultKinds[fault].err, Ch: ch}
 					var res lib.CallResult
 					o := lib.Guard(func() { res = lib.Call(ep, r) })
 					c.Eval()
-					where := fmt.Sprintf("%s, %s at offset %d of %d, %s reads", ep, []string{"clean cut", "read fault"}[fault], cut, len(stream), ch)
+					where := fmt.Sprintf("%s, %s at offset %d of %d, %s reads", ep, faultKinds[fault].name, cut, len(stream), ch)
 					if o.Panicked || o.Hang {
 						c.Violation(stream, "%s: panicked/hung: %s", where, o.Panic)
 						return
 					}
-					if !c11Judge(c, stream, where, ep, cut, fault == 1, need[ep], res, intact[ep], files, bounds) {
+					if !c11Judge(c, stream, where, ep, cut, fault >= 1, need[ep], res, intact[ep], files, bounds) {
 						return
 					}
 				}
 			}
 		}
 	}
-	n := int64(len(stream)-1) * 2 * int64(len(lib.EntryPoints)) * int64(len(chunkers))
+	n := int64(len(stream)-1) * int64(len(faultKinds)) * int64(len(lib.EntryPoints)) * int64(len(chunkers))
 	c.NontrivialN(n)
 	c.Count("streams", 1)
 	c.Count("offsets", int64(len(stream)+1))
